@@ -122,11 +122,11 @@ impl Board {
 
 impl MoveGen {
     pub fn is_empty(&self) -> bool {
-        if let [legals, ..] = &self.moves[self.index..] {
-            return (legals.moves & self.mask).none();
-        }
-
-        true
+        // `remove` and `remove_move` can exhaust an entry in the middle of the list,
+        // so every remaining entry has to be looked at
+        self.moves[self.index..]
+            .iter()
+            .all(|legals| (legals.moves & self.mask).none())
     }
 
     pub fn len(&self) -> usize {
@@ -136,7 +136,7 @@ impl MoveGen {
 
         for legals in &self.moves[self.index..] {
             if (legals.moves & self.mask).none() {
-                break;
+                continue;
             }
             let count = (legals.moves & self.mask).count() as usize;
             len += if legals.promotion {
@@ -152,9 +152,26 @@ impl MoveGen {
 
     /// Never move to any position marked in the mask
     pub fn remove(&mut self, mask: BitBoard) {
+        if let Some(dest) = self.promotion_in_progress() {
+            if mask.contains(dest) {
+                // the rest of this promotion group goes away with its destination
+                self.promotions = PROMOTION_PIECES.iter();
+            }
+        }
+
         for legals in &mut self.moves {
             legals.moves -= mask;
         }
+    }
+
+    /// the destination whose promotion pieces are partly yielded, if any
+    fn promotion_in_progress(&self) -> Option<Pos> {
+        if self.promotions.len() == PROMOTION_PIECES.len() {
+            return None;
+        }
+
+        let legals = self.moves.get(self.index)?;
+        (legals.moves & self.mask).iter().next()
     }
 
     /// Never, ever, iterate this move
@@ -166,6 +183,10 @@ impl MoveGen {
                 && self.moves[x].moves.contains(chess_move.dest)
                 && self.moves[x].promotion == chess_move.piece.is_some()
             {
+                if x == self.index && self.promotion_in_progress() == Some(chess_move.dest) {
+                    self.promotions = PROMOTION_PIECES.iter();
+                }
+
                 self.moves[x].moves -= chess_move.dest;
                 return true;
             }
@@ -207,15 +228,17 @@ impl Iterator for MoveGen {
 
     fn next(&mut self) -> Option<Self::Item> {
         let legals = &mut self.moves[..];
+
+        // skip entries exhausted by `remove` / `remove_move`
+        while self.index < legals.len() && (legals[self.index].moves & self.mask).none() {
+            self.index += 1;
+        }
+
         if self.index >= legals.len() {
             return None;
         }
 
         let legal = &mut legals[self.index];
-
-        if (legal.moves & self.mask).none() {
-            return None;
-        }
 
         if legal.promotion {
             let &promotion = self.promotions.next().unwrap();
